@@ -104,16 +104,19 @@ def _cps(s):
 
 
 # ----------------------------------------------------------------------------- stage A / B
-def _stage_a(ctx):
-    r = vlib.tlc_ok("MC_Bip39", "MC_Bip39_54.cfg", workers=16, timeout=1800)
-    ctx.stage_a("MC_Bip39_54.cfg", r, constants="W=5 U=4 ValidEnt={8,12} list=32 words; all bit strings of length 0..13, all "
-                                                 "index sequences of length 0..3 over 0..32, length 4 over {0,1,31,32}")
-    r = vlib.tlc("MC_Bip39", "MC_Bip39_54_swap.cfg", workers=8, timeout=900)
-    if r.completed or r.invariant not in ("RoundTrip", "AcceptExactlyImage", "ExactlyOneSibling"):
-        raise vlib.MachineryFailure("MC_Bip39 self-test: the wrong-checksum deviation was not caught:\n" + r.error_text())
+def _mc_cfg(ctx):
+    return "MC_Bip39_54.cfg" if ctx.tier == "quick" else "MC_Bip39_54_t.cfg"
 
 
-def _stage_b(ctx):
+def _stage_a(ctx, r, rdev):
+    ctx.stage_a(_mc_cfg(ctx), r, constants="W=5 U=4 ValidEnt={8,12} list=32 words; all bit strings of length 0..13, all index "
+                                           "sequences of length 0..2 over 0..32, length 3 over 0..32 (quick: first word in "
+                                           "{0,1,17,31,32}), length 4 over {0,1,31,32}")
+    if rdev.completed or rdev.invariant not in ("RoundTrip", "AcceptExactlyImage", "ExactlyOneSibling"):
+        raise vlib.MachineryFailure("MC_Bip39 self-test: the wrong-checksum deviation was not caught:\n" + rdev.error_text())
+
+
+def _gen_b(ctx):
     os.makedirs(vlib.WORK, exist_ok=True)
     quick = ctx.tier == "quick"
     subst = "{0, 1, 1023, 2047, 2048, 2049}" if quick else "{0, 1, 2, 1023, 1024, 2046, 2047, 2048, 2049, 2050, 2051}"
@@ -134,7 +137,11 @@ def _stage_b(ctx):
         return rows
 
     with ThreadPoolExecutor(max_workers=5) as ex:
-        rows = [row for part in ex.map(gen, VALID) for row in part]
+        return [row for part in ex.map(gen, VALID) for row in part], subst
+
+
+def _stage_b(ctx, rows, subst):
+    quick = ctx.tier == "quick"
     n_acc = 0
     for row in rows:
         if row["op"] == "enc":
@@ -265,7 +272,7 @@ def _gen_c(ctx):
         for _ in range(3 if quick else 60):
             evs.append({"op": "dec", "idx": [rnd.randrange(2048) for _ in range(n)], "cls": "random-words"})
     # last word: all 2047 alternatives
-    seen = set()
+    seen = {12, 24} if quick else set()          # quick: the 12- and 24-word families are enumerated in stage B
     for b in bases:
         if len(b) not in seen or (not quick and len([1 for x in evs if x["op"] == "last"]) < 25):
             seen.add(len(b))
@@ -328,7 +335,7 @@ def _run_c(ctx, evs, selftest=True):
         return vlib.validate_events("Trace_Bip39", lst, chunk=chunk, jobs=8, tag=tag) if lst else ({}, {})
 
     with ThreadPoolExecutor(max_workers=2) as ex:
-        for v, s in ex.map(part, [(heavy, 1, "b39l"), (light, max(10, len(light) // 12 + 1), "b39")]):
+        for v, s in ex.map(part, [(heavy, 1, "b39l"), (light, max(10, len(light) // 8 + 1), "b39")]):
             verdicts.update(v)
             for k in s:
                 stats[k] += s[k]
@@ -370,9 +377,15 @@ def run(ctx):
     vlib.native_selftest()
     _pinned_words()
     _check_repo_wordlist(ctx)
-    _stage_a(ctx)
-    nvec = _selftest(ctx)
-    _stage_b(ctx)
+    with ThreadPoolExecutor(max_workers=4) as ex:          # independent TLC jobs run concurrently
+        fa = ex.submit(vlib.tlc_ok, "MC_Bip39", _mc_cfg(ctx), workers=8, timeout=1800)
+        fd = ex.submit(vlib.tlc, "MC_Bip39", "MC_Bip39_54_swap.cfg", workers=4, timeout=900)
+        fv = ex.submit(_selftest, ctx)
+        fb = ex.submit(_gen_b, ctx)
+        _stage_a(ctx, fa.result(), fd.result())
+        nvec = fv.result()
+        rows, subst = fb.result()
+    _stage_b(ctx, rows, subst)
     _run_c(ctx, _gen_c(ctx))
     ctx.cov["stage_c"][-1]["trezor_vectors_selftest"] = nvec
 
